@@ -110,6 +110,8 @@ class Hopper(AbstractMujocoEnv[Float[Array, "..."], Float[Array, "..."]]):
 
         data = mjx.make_data(self.model)
         data = data.replace(qpos=qpos, qvel=qvel)
+        # Derived quantities (body positions, contact forces, ...) must match the sampled state.
+        data = mjx.forward(self.model, data)
 
         return MujocoEnvState(sim_state=data, t=jnp.array(0.0))
 
